@@ -6,7 +6,7 @@ import ast
 from ..effects import EMPTY, is_top
 from ..model import AnalysisError, dotted, norm_text, unparse, walk_no_nested
 from ..q import NONEXC, Fn, package_calls, iter_functions
-from .common import AT4_API, AT5_API, SOCKET, SOCK_CLS, fn_of, sock_fn
+from .common import schedule_calls, AT4_API, AT5_API, SOCKET, SOCK_CLS, fn_of, sock_fn
 
 LEVEL = "other"
 EXPLANATION = (
@@ -126,7 +126,7 @@ def r2(ctx):
     rc = sock_fn(ctx, "reset_connection")
     m = rc.module
     dis = [n for n, c in rc.calls("self._disconnect") if n.awaits]
-    sched = [(n, c) for n, c in rc.calls("self._schedule") if any(isinstance(x, ast.Call) and dotted(x.func) == "self._connect" for x in ast.walk(c))]
+    sched = schedule_calls(rc, "_connect")
     ok = bool(dis) and bool(sched) and all(rc.cfg.dominates(dis[0].id, n.id) for n, _ in sched) and rc.cfg.all_paths_pass(rc.cfg.entry.id, [rc.cfg.exit.id], [n.id for n, _ in sched], NONEXC) and rc.cfg.all_paths_pass(rc.cfg.entry.id, [rc.cfg.exit.id], [d.id for d in dis], NONEXC)
     ctx.check(ok, R, "reset_connection:disconnect-then-connect", m, rc.node, "await _disconnect() and then _schedule(_connect()) on every path", "missing or out of order")
     for n, c in sched:
@@ -177,7 +177,7 @@ def r3(ctx):
     con, opens = _connect_parts(ctx)
     m, g = con.module, con.cfg
     on = opens[0][0]
-    retries = [(n, c) for n, c in con.calls("self._schedule") if any(isinstance(x, ast.Call) and dotted(x.func) == "self._connect" for x in ast.walk(c))]
+    retries = schedule_calls(con, "_connect")
     if not retries:
         ctx.violation(R, "_connect:retry", m, con.node, "a failed connection attempt schedules another _connect()", "no self._schedule(self._connect(), ...) in _connect")
         return
@@ -251,7 +251,7 @@ def r5(ctx):
     con, opens = _connect_parts(ctx)
     m, g = con.module, con.cfg
     sets = [n for n, v in con.assigns("self.is_connected") if isinstance(v, ast.Constant) and v.value is True]
-    reads = [n for n, c in con.calls("self._schedule") if any(isinstance(x, ast.Call) and dotted(x.func) == "self._read" for x in ast.walk(c))]
+    reads = [n for n, c in schedule_calls(con, "_read")]
     if not sets or not reads:
         ctx.violation(R, "_connect:read-loop", m, con.node, "_connect sets is_connected and schedules the read loop", f"is_connected=True: {len(sets)}, _schedule(_read()): {len(reads)}")
         return
